@@ -31,6 +31,8 @@ type MultiRequest struct {
 	Rounds [][]RunSpec       `json:"rounds"`
 	// RePrepareBetween prepares the same text a third time between rounds (and discards it).
 	RePrepareBetween bool        `json:"re_prepare_between,omitempty"`
+	// ConcurrentPrepares prepares the text this many times at the same time first (C17).
+	ConcurrentPrepares int `json:"concurrent_prepares,omitempty"`
 	Plan             vsched.Plan `json:"plan,omitempty"`
 	WatchdogMs       int         `json:"watchdog_ms,omitempty"`
 }
@@ -75,6 +77,17 @@ func RunMulti(req *MultiRequest) *MultiAnswer {
 	vsched.Install(plan)
 	defer vsched.Install(nil)
 	before := goroutineIDs()
+	if req.ConcurrentPrepares > 1 {
+		var pwg sync.WaitGroup
+		for i := 0; i < req.ConcurrentPrepares; i++ {
+			pwg.Add(1)
+			go func() {
+				defer pwg.Done()
+				_, _, _ = env.Prepare(req.Main, req.Files)
+			}()
+		}
+		pwg.Wait()
+	}
 	wf, perr, ppanic := env.Prepare(req.Main, req.Files)
 	if ppanic != "" || perr != nil {
 		ans.PreparePanic = ppanic
